@@ -160,6 +160,8 @@ def check_gtf_duplicates(gtf):
     transcript_ids = {}
     exon_gene_ids = set()
     exon_transcript_ids = set()
+    # gene id -> sequences it occurs on, in order of appearance
+    gene_seqids = {}
     corrected_gtf = ""
 
     gtf_name = os.path.basename(gtf)
@@ -219,6 +221,18 @@ def check_gtf_duplicates(gtf):
                 gene_ids[gene_id] = 0
         elif gene_id in gene_ids and gene_ids[gene_id] > 0:
             gene_id += ".%d" % gene_ids[gene_id]
+
+        # a gene id names one gene: records with the same id on another sequence would become children of a single
+        # (inferred) gene record, and the transcripts of the other sequence would be reported on the wrong one
+        seqids = gene_seqids.setdefault(gene_id, [])
+        if v[0] not in seqids:
+            seqids.append(v[0])
+            if len(seqids) > 1:
+                logger.warning("Gene id %s is used on several sequences (%s), line %d" %
+                               (gene_id, ", ".join(seqids), line_count))
+                gtf_correct = False
+        if seqids.index(v[0]) > 0:
+            gene_id += ".%s" % v[0]
 
         transcript_id_pos = -1
         for i in range(len(attrs)):
